@@ -68,6 +68,30 @@ func (e *ULeafSafe) SafeFormatError(p errors.Printer) error {
 func (e *ULeafSafe) Format(s fmt.State, verb rune) { errors.FormatError(e, s, verb) }
 func (e *ULeafSafe) SafeDetails() []string         { return []string{e.SafePart} }
 
+// ULeafBadProto is an unregistered leaf that announces itself as a protobuf
+// message but whose marshalling fails (a required field is unset, a custom
+// Marshal reports an error...): the encoder must drop the payload and go on.
+type ULeafBadProto struct{ Msg string }
+
+func (e *ULeafBadProto) Error() string            { return e.Msg }
+func (e *ULeafBadProto) Reset()                   { *e = ULeafBadProto{} }
+func (e *ULeafBadProto) String() string           { return e.Msg }
+func (e *ULeafBadProto) ProtoMessage()            {}
+func (e *ULeafBadProto) Marshal() ([]byte, error) { return nil, goerrors.New("marshal: required field not set") }
+
+// UWrapBadProto is the wrapper counterpart of ULeafBadProto.
+type UWrapBadProto struct {
+	Msg   string
+	Cause error
+}
+
+func (e *UWrapBadProto) Error() string            { return e.Msg + ": " + e.Cause.Error() }
+func (e *UWrapBadProto) Unwrap() error            { return e.Cause }
+func (e *UWrapBadProto) Reset()                   { *e = UWrapBadProto{} }
+func (e *UWrapBadProto) String() string           { return e.Msg }
+func (e *UWrapBadProto) ProtoMessage()            {}
+func (e *UWrapBadProto) Marshal() ([]byte, error) { return nil, goerrors.New("marshal: required field not set") }
+
 // UWrapPrefix is "msg: cause" with Unwrap.
 type UWrapPrefix struct {
 	Msg   string
